@@ -106,7 +106,7 @@ fn main() {
     let mut rep = Report::new("C14", &cli);
     rep.note("rule", json!("case = list of 0..40 boxes (clustered / sparse / nested / duplicated / mixed, rotated or not - 35% of the rotated lists co-oriented (one shared non-zero angle) -, scores none / all / mixed, ~4% invalid boxes), nms threshold in (0,1), score threshold None / below / inside / above. Outputs are mapped to input indices by pointer identity. Checked: subset & filter, non-increasing rank, top-ranked eligible kept, no kept box covered beyond threshold (+1e-4 band) by an earlier kept box, every dropped eligible box covered beyond threshold (-1e-4 band) by some kept box of rank >= its own, nms(nms(x)) == nms(x). Coverage reference = f64 convex intersection / area; 8% of the lists are integer-grid lists whose coverage fractions and threshold are exact binary fractions, judged without band (a box covered by exactly the threshold fraction is NOT suppressed); 10% of the boxes reach their parameters by field writes after gen_vertices(). Non-trivial: at least one box dropped by suppression and at least two kept; distinct by hash of the list."));
     rep.note("assumptions", json!(["finite scores and coordinates", "rank ties: either order accepted (only non-increasing ranks are required)"]));
-    let n = cli.cases(20_000, 1_000_000);
+    let n = cli.cases(200_000, 2_000_000);
     for idx in cli.index_range(n) {
         let mut rng = Rng::for_case(cli.seed, cli.shard, idx);
         let (dets, thr, st, style) = gen_list(&mut rng);
